@@ -66,8 +66,33 @@ META = dict(
          '(3) C13_keyed_cache_transparent_iff: a cache keyed by key(request), any eviction, is unobservable IFF key determines '
          'the stored result; negative direction proved on the witness of seeded/C13-2 / C07-4 (marker descriptor cached by '
          '(operator, element id) without the table group: 022039 12 vs 13 bits). '
-         'The model is immutable, so dependence through Python aliasing / object identity (id() reuse after garbage collection, '
-         'mutation of shared cached descriptors) cannot be exhibited by theorems; that part is carried by the oracle: histories on '
+         '(4) HEAP level (Msg/Heap.lean, C13_heap_*): the same process state as a store of mutable objects with references - the '
+         'table-group cache refers to group objects whose Table B / D entries are references to ONE descriptor object each, '
+         'templates, compiled templates and decoded messages refer to those same objects, CoderState builds [[]]*n / [{}]*n (n '
+         'references to one object) for compressed data and n objects otherwise, wire() rewrites the message object in place, the '
+         'Table C memo of a cached group grows at run time, and every operation may perform arbitrary EXTRA writes W. Proved for '
+         'histories of any length: the ownership invariant Sep (everything reachable from a cache or a kept message is allocated, '
+         'so new objects are owned by nobody; a kept message is held under one key) is preserved by every operation whose extra '
+         'writes respect the discipline "no write to a cell reachable from a cache or a kept message"; under it the heap model '
+         'REFINES the value model (abs commutes with every operation, equal outputs: C13_heap_refines_value_model), hence '
+         'C13_heap_history_independent; compressed: all n subsets show the one shared list / dict whatever is appended through '
+         'whichever alias (C13_compressed_subsets_share); uncompressed: a write through the alias of subset i never changes '
+         'subset j (C13_uncompressed_subsets_separate). The discipline is shown NECESSARY by proved negations: a decode that '
+         'patches nbits of the cached ElementDescriptor answers differently the second time; an uncompressed CoderState over '
+         '[[]]*n leaks appends into the other subsets. The discipline is a CHECKED fact of the implementation on every run '
+         '(harness/c13heap.py): __setattr__/__delattr__ hooks on the descriptor / statement / table classes, an identity + content '
+         'snapshot of everything reachable from every table group and every compiled template taken at insertion and re-compared '
+         'after EVERY operation of every history (only the Table C memo may gain id -> OperatorDescriptor(id)), `is` checks of the '
+         'CoderState / TemplateData per-subset containers and of decoded descriptors against the cached Table B objects; a write '
+         'reaching a cached object outside load / compile of its key is reported as a failure of Sep, with a failing history when '
+         'the fresh-interpreter oracle finds one (probe operations appended) and as no-failing-input-found otherwise. Every '
+         'oracle history is also executed on the heap model (driver op heap: outcome, identity pattern of the per-subset lists, '
+         'cached cells stable, Sep bound, heap outputs = value outputs). '
+         'What remains outside the theorems (still PARTIAL): objects outside the modelled ownership picture - id() reuse after '
+         'garbage collection (renderer / querent caches keyed by id: oracle only), the pseudo descriptors a COMPILED template owns '
+         'and shares between messages and the template object it keeps (digest audit only), attributes of descriptor objects the '
+         'coder does not read, value lists shared by BufrMessage.subset() with its source (C10), thread safety. That part is carried '
+         'by the oracle: histories on '
          'ONE reused Decoder/Encoder/renderer/querent per slot - random traffic, cross-version families derived mechanically from '
          'the bundled tables (550 elements / 190 sequences defined differently in two of the 44 bundled table groups; marker '
          'operators, class 33, associated fields, 203/201/202/207/208, replication, sequences), and stream conversion with released '
@@ -75,11 +100,14 @@ META = dict(
          'Correspondence: cache level (key lists, contents) and session level (every oracle history replayed on Session.step: '
          'outcome class, failing stage, both caches\' keys, kept objects and wired flags after every operation).',
     technique='Lean 4 theorems (invariant of reachable states, refinement of a state machine to a stateless specification by '
-              'induction over operation lists, iff-characterisation of transparent keyed caches) + model/implementation '
+              'induction over operation lists, iff-characterisation of transparent keyed caches, heap model with ownership invariant and '
+              'frame lemmas refining the value model, proved negations) + in-process write audit of the cached objects + model/implementation '
               'correspondence on cache and session histories + implementation-vs-fresh-interpreter differential oracle on '
               'operation histories over mechanically derived cross-table-version inputs',
-    note='Partial: Python object identity/aliasing is not modelled (DESIGN 4.3); the fresh-interpreter comparison is the only '
-         'evidence for that part. Table-definition messages and extra B/D entries are excluded (C20). The session refinement '
+    note='Partial: object identity / aliasing is modelled for the ownership picture of notes/C13Heap.md (cached descriptor objects, '
+         'per-subset containers, in-place wiring, Table C memo) and its write discipline is audited on the real objects at every '
+         'operation; id() reuse after garbage collection, compiled-template-owned pseudo descriptors and threads are not in the '
+         'heap model (oracle / digest audit only). Table-definition messages and extra B/D entries are excluded (C20). The session refinement '
          'assumes the cache limit is never set to 0 in mid-session (with 0 the code raises KeyError on every miss while kept '
          'objects stay usable: proved counterexample in Props/C13Session.lean).',
 )
@@ -595,7 +623,7 @@ class Runner(object):
     def managers(self):
         return {'%s:%s' % k: c.compiled_template_manager for k, c in self.coders.items() if c.compiled_template_manager is not None}
 
-    def heap_check(self, i, op, ok):
+    def heap_check(self, i, op, ok, final=False):
         """heap audit after operation i: digests of every cache entry; identity of the descriptors of a new message"""
         h = self.heap
         cache = self.tables.TableGroupCacheManager._TABLE_GROUP_CACHE
@@ -603,7 +631,7 @@ class Runner(object):
             msg = self.objs.get((op['src'], op['c'], op['m']))
             if msg is not None:
                 h.check_message(msg, cache)
-        h.after_op(cache, self.managers())
+        h.after_op(cache, self.managers(), final=final)
 
     def snapshot(self):
         """what the session model keeps as state: keys of the table-group cache, keys of every coder's compiled-template
@@ -726,7 +754,7 @@ def run_history(task):
             if a:
                 audit = (i, a)
         if r.heap is not None:
-            r.heap_check(i, op, ok)
+            r.heap_check(i, op, ok, final=(i == len(task['ops']) - 1))
     return {'out': out, 'log': r.log, 'clog': r.clog, 'audit': audit, 'st': st, 'heap': r.heap.result() if r.heap is not None else None}
 
 
@@ -1622,6 +1650,9 @@ def evaluate_histories(ctx, mp, pool_path, pool, hists, kinds=None):
     results = mp.map(run_history, [{'pool': pool_path, 'limit': limit, 'ops': ops} for limit, ops in hists], chunksize=1)
     ctx.notes.append('timing: %d reference operations in fresh interpreters %.1fs, %d histories %.1fs' % (len(keys), t1 - t0, len(hists), time.time() - t1))
     session_correspondence(ctx, hists, results, distinct, refs, refev, pool_cls)
+    from harness import c13heapmodel
+    c13heapmodel.heap_correspondence(ctx, sys.modules[__name__], hists, results, distinct, refs, refev,
+                                     [(distinct[k], (r[2] if len(r) > 2 else None)) for k, r in zip(keys, fres)])
     heap_correspondence(ctx, mp, pool_path, hists, results, distinct, refs, refev, refheap)
     logged = []
     for hi, ((limit, ops), res) in enumerate(zip(hists, results)):
